@@ -101,6 +101,10 @@ def assignments(rng, names, count):
         lt = rng.choice([x for x in lower if x not in ("static",)])
         vs = rng.sample(sorted({x for x in upper + ["Some", "None", "Ok", "Err", "Equal", "Less", "Greater"] if x not in (tp, cp)}), 3)
         ty = rng.choice([x for x in upper if x not in (tp, cp) and x not in vs] + ["Educe__"])
+        # the generic names the generated code may pick for itself, in both declaration orders
+        pairs = [("H_", "H"), ("H", "H_"), ("H__", "H"), ("H_", "H__"), ("V", "M"), ("M", "V"), ("Educe__DebugField", "Educe__DebugField_"), ("Educe__DebugField_", "Educe__DebugField")]
+        if i < len(pairs):
+            tp, cp = pairs[i]
         n = {"TY": ty, "TP": tp, "CP": cp, "LT": lt, "f1": f1, "f2": f2, "f3": f3, "V1": vs[0], "V2": vs[1], "V3": vs[2]}
         vals = [n[k] for k in ("TP", "CP")] + [ty + s for s in "SETDU"]
         if len(set(vals)) != len(vals) or len({f1, f2, f3}) != 3:
